@@ -274,11 +274,15 @@ class World:
     return out
 
   # -- actions -----------------------------------------------------------------
+  def project_store(self, store):
+    return {str(k): sorted([p, core.jdump(self.to_spec(v))] for p, v in d.items()) for k, d in store.items()}
+
   def apply(self, o):
     """Executes the action described by a specification `out` record; returns the real
     observable result as a dict with the same keys."""
     op = o['op']
     gin = self.gin
+    world = self
     res = {'op': op}
     self.step += 1
     if op == 'Bind':
@@ -309,6 +313,8 @@ class World:
     elif op == 'Call':
       res.update(self.call(dotted(o['sel']), o['pargs'], o['ckw']))
     elif op == 'Finalize':
+      world.hook_views = []
+      before = world.project_store(self.config._CONFIG)
       try:
         gin.finalize()
         res['status'] = 'ok'
@@ -317,6 +323,8 @@ class World:
       except (ValueError, RuntimeError, KeyError) as e:
         res['status'] = type(e).__name__
         res['msg'] = str(e)
+      # every hook must have seen the configuration as parsed (before any hook's bindings)
+      res['sawParsed'] = all(v == before for v in world.hook_views)
     elif op == 'RegisterHook':
       h = o['hook']
       rets = {}
@@ -326,7 +334,7 @@ class World:
       raises = h['raises']
 
       def hook(config, rets=rets, raises=raises):
-        del config
+        world.hook_views.append(world.project_store(config))
         if raises:
           raise HookError('hook failed')
         return dict(rets) if rets else None
@@ -484,6 +492,8 @@ def compare_out(want, got):
       return ('yielded', exp, got.get('yielded'))
   if want['op'] == 'Query' and want['status'] == 'ok' and want['val'] != got.get('val'):
     return ('val', want['val'], got.get('val'))
+  if want['op'] == 'Finalize' and got.get('sawParsed') is False:
+    return ('hooks-see-config-as-parsed', True, False)
   if want['status'] != got['status']:
     return ('status', want['status'], got['status'] + (': ' + got.get('msg', '')[:200] if got.get('msg') else ''))
   if want['op'] == 'Call':
